@@ -488,8 +488,14 @@ pub fn finish(ctx: &Ctx, stats: Stats, report: Report) -> i32 {
         wall
     );
     if code == 0 {
-        if !ev["coverage"]["inconclusive"].as_array().map(|a| a.is_empty()).unwrap_or(true) {
-            println!("INCONCLUSIVE: {}", ev["coverage"]["inconclusive"]);
+        // cases that hit the watchdog (or could not start) are not evaluated; they make the run
+        // inconclusive only when they are more than a small share of it
+        let inc = ev["coverage"]["inconclusive"].as_array().map(|a| a.len()).unwrap_or(0) as u64;
+        if inc > 0 {
+            println!("NOTE: {} case(s) not evaluated (watchdog / start failure): {}", inc, ev["coverage"]["inconclusive"]);
+        }
+        if inc * 20 > ev["coverage"]["evaluations"].as_u64().unwrap_or(0).max(1) {
+            println!("INCONCLUSIVE: more than 5% of the cases could not be evaluated");
             return 2;
         }
         if ev["coverage"]["distinct_nontrivial"].as_u64().unwrap_or(0) < 2 {
